@@ -3,7 +3,7 @@ from facts import AnalysisBroken
 from model import (ret_value_class, dstr, strip, fact_holds, mentions_field, mentions_call, mentions_var,
                    mentions_enum, const_value, walk)
 from props.scan_common import check_build_exit_codes
-from rules import (guarded, calls_to, field_writes, who_may_call, must_pass, dominated_by,
+from rules import (absent_from, guarded, calls_to, field_writes, who_may_call, must_pass, dominated_by,
                    full_range, loops_over, every_iteration_passes, basename, error_discipline,
                    origins, reject_if, skip_conditions_exact, is_enum, is_field, atom_cmp,
                    anything, reached_only_via)
@@ -195,10 +195,7 @@ def run(ctx):
                 loop = {'header': bid, 'body': b['succ'][0], 'line': t['line'], 'bound': 'node->out_edges()'}
                 skip_conditions_exact(
                     ctx, 'C17.O2', um, loop, lambda x: x is e,
-                    [(lambda a: strip(a).get('k') == 'call' and
-                      basename(strip(a).get('name') or '').startswith('operator==') and
-                      'Plan::want_.end()' in dstr(a), True),
-                     (mark_is('Edge::VisitNone'), True)],
+                    absent_from('Plan::want_') + [(mark_is('Edge::VisitNone'), True)],
                     'a dependent edge keeps its mark only if it is not in the plan or already unmarked',
                     'Unmark:extra-skip')
     # the recursion covers all outputs of an unmarked edge
